@@ -297,14 +297,18 @@ func (c *Client) SetConfig(config *fpb.Config) {
 }
 
 func (c *Client) reset() error {
-	c.mu.Lock()
-	defer c.mu.Unlock()
-	log.V(1).Infof("Client %s using config:\n%s", c, prototext.Format(c.config))
+	// The config lock is not held while the queue is installed: nextInQueue
+	// takes the queue lock first and the config lock second (isCanceled), and
+	// a poll arriving at that moment would otherwise deadlock both goroutines.
+	c.mu.RLock()
+	config := c.config
+	c.mu.RUnlock()
+	log.V(1).Infof("Client %s using config:\n%s", c, prototext.Format(config))
 	switch {
 	default:
-		q := queue.New(c.config.GetEnableDelay(), c.config.Seed, c.config.Values)
+		q := queue.New(config.GetEnableDelay(), config.Seed, config.Values)
 		// Inject sync message after latest provided update in the config.
-		if !c.config.DisableSync {
+		if !config.DisableSync {
 			q.Add(&fpb.Value{
 				Timestamp: &fpb.Timestamp{Timestamp: q.Latest()},
 				Repeat:    1,
@@ -312,10 +316,10 @@ func (c *Client) reset() error {
 			})
 		}
 		c.setQueue(q)
-	case c.config.GetFixed() != nil:
-		q := queue.NewFixed(c.config.GetFixed().Responses, c.config.EnableDelay)
+	case config.GetFixed() != nil:
+		q := queue.NewFixed(config.GetFixed().Responses, config.EnableDelay)
 		// Inject sync message after latest provided update in the config.
-		if !c.config.DisableSync {
+		if !config.DisableSync {
 			q.Add(syncResp)
 		}
 		c.setQueue(q)
